@@ -20,6 +20,7 @@ import (
 	"github.com/yorkie-team/yorkie/pkg/document"
 	"github.com/yorkie-team/yorkie/pkg/document/json"
 	"github.com/yorkie-team/yorkie/pkg/document/presence"
+	"github.com/yorkie-team/yorkie/pkg/key"
 	"github.com/yorkie-team/yorkie/server/backend/database"
 )
 
@@ -37,7 +38,7 @@ var lifeAlphabet = func() []lcall {
 	for c := 0; c < 2; c++ {
 		a = append(a, lcall{"act", c, 0}, lcall{"deact", c, 0})
 		for d := 0; d < 2; d++ {
-			a = append(a, lcall{"att", c, d}, lcall{"pp", c, d}, lcall{"det", c, d}, lcall{"rem", c, d}, lcall{"atts", c, d})
+			a = append(a, lcall{"att", c, d}, lcall{"pp", c, d}, lcall{"det", c, d}, lcall{"rem", c, d}, lcall{"atts", c, d}, lcall{"attf", c, d})
 		}
 	}
 	return a
@@ -122,6 +123,34 @@ func runLifeSeq(ctx context.Context, srv *sim.Server, seqNo int, calls []lcall, 
 				knownDocID[call.d] = a.DocID
 			} else {
 				a.Close()
+			}
+		case "attf": // an attach naming a schema that does not exist: it fails half-way (the server has recorded "attaching" by then) unless somebody else has the document attached, in which case the schema key is ignored
+			if sl == nil {
+				skipped = true
+				break
+			}
+			nch = 1
+			a, e := sl.c.Attach(ctx, keys[call.d], sim.AttachOpts{DisablePresence: true, Pre: lifePre(i), SchemaKey: "no-such-schema@1"})
+			err = e
+			if e == nil {
+				if old := sl.atts[call.d]; old != nil {
+					old.Close()
+				}
+				sl.atts[call.d] = a
+				knownDocID[call.d] = a.DocID
+				break
+			}
+			a.Close()
+			if di, derr := srv.Be.DB.FindDocInfoByKey(ctx, p.ID, key.Key(keys[call.d])); derr == nil && di != nil {
+				knownDocID[call.d] = di.ID.String()
+				if old := sl.atts[call.d]; old == nil || old.DocID != di.ID.String() {
+					if old != nil {
+						old.Close()
+					}
+					d, stop := sim.NewDoc(keys[call.d])
+					d.SetActor(sl.c.ID)
+					sl.atts[call.d] = sim.NewRawAtt(sl.c, d, di.ID.String(), stop)
+				}
 			}
 		case "atts": // attach again with the SAME Document instance (not a fresh one)
 			if sl == nil {
@@ -217,6 +246,8 @@ func runLifeSeq(ctx context.Context, srv *sim.Server, seqNo int, calls []lcall, 
 			cc = coqfmt.App("LDetach", coqfmt.N(uint64(call.c)), coqfmt.N(uint64(call.d)), coqfmt.Z(int64(nch)))
 		case "rem":
 			cc = coqfmt.App("LRemove", coqfmt.N(uint64(call.c)), coqfmt.N(uint64(call.d)), coqfmt.Z(int64(nch)))
+		case "attf":
+			cc = coqfmt.App("LAttachFail", coqfmt.N(uint64(call.c)), coqfmt.N(uint64(call.d)), coqfmt.Z(int64(nch)))
 		}
 		items = append(items, coqfmt.Pair(cc, coqfmt.App("mkLobs", coqfmt.Bool(err == nil), coqfmt.Bool(active), statusCoq(status), coqfmt.Z(rows))))
 		if err != nil {
@@ -288,7 +319,7 @@ func runLife(cfg *config) error {
 				case !att[c][d]:
 					s = append(s, lcall{"att", c, d})
 				default:
-					s = append(s, lcall{[]string{"pp", "pp", "det", "rem", "deact", "att", "atts"}[r.Intn(7)], c, d})
+					s = append(s, lcall{[]string{"pp", "pp", "det", "rem", "deact", "att", "atts", "attf"}[r.Intn(8)], c, d})
 				}
 			}
 			last := s[len(s)-1]
